@@ -59,6 +59,10 @@ class Roles:
             raise AnalysisError("_parse_schema: the dictionary being built (copy of schema.items()) not found")
 
 
+def names_in_text(t):
+    return {n.id for n in ast.walk(ast.parse(t, mode="eval")) if isinstance(n, ast.Name)}
+
+
 def arm_nodes(arm):
     return [n for st in arm.body for n in ast.walk(st)]
 
@@ -245,19 +249,72 @@ def run(ctx):
     ctx.check("C11.R5", "a union default matches when any branch matches (branches checked with the name table)", ok, dm.where(), "_default_matches_schema: list arm", "union defaults must be checked against every branch, references included")
     ok = dnp is not None and any(isinstance(n, ast.Assign) and norm(n.value) == f"{dnp}[{dsp}]['type']" for n in walk_local(dm.node))
     ctx.check("C11.R5", "a reference is checked as the kind of its definition", ok, dm.where(), "_default_matches_schema: by-name arm", "defaults of fields whose type is a reference must be checked against the referenced definition's kind")
-    uses = [c for c in ast.walk(ps.node) if isinstance(c, ast.Call) and isinstance(c.func, ast.Name) and c.func.id == dm.name]
-    with_table = [c for c in uses if len(c.args) >= 3 and norm(c.args[2]) == R.named]
-    ctx.check("C11.R5", "the table is applied in the union arm and the reference arm with the name table, and in the primitive arms", len(uses) >= 3 and len(with_table) >= 2, ps.where(), f"_parse_schema: {len(uses)} uses of the default table, {len(with_table)} with the name table", "an arm that can receive a default does not check it, or checks a union / reference without the name table")
+    # the table itself, or the part of it that the table function delegates to (a kind-only predicate)
+    parts = {dm.id}
+    for c in ast.walk(dm.node):
+        if isinstance(c, ast.Call) and isinstance(c.func, ast.Name):
+            g = p.resolve_func(dm.mod, c.func)
+            if g is not None and g.cls is None:
+                parts.add(g.id)
+    uses = [c for c in ast.walk(ps.node) if isinstance(c, ast.Call) and isinstance(c.func, ast.Name) and getattr(p.resolve_func(ps.mod, c.func), "id", None) in parts]
+    with_table = [c for c in uses if c.func.id == dm.name and len(c.args) >= 3 and norm(c.args[2]) == R.named]
     rd = p.maybe_func("_schema_py:_raise_default_value_error")
-    for kind, typ in (("array", "list"), ("map", "dict"), ("enum", "str"), ("fixed", "str"), ("record", "dict")):
-        arm = R.arms.get(kind)
-        ok = False
-        for n in arm_nodes(arm) if arm is not None else []:
-            if isinstance(n, ast.Call) and isinstance(n.func, ast.Name) and rd is not None and p.resolve_func(ps.mod, n.func) is rd:
+    mods = [ps.mod] + [m for m in p.modules.values() if m is not ps.mod]
+    guards.HOOK["call"] = guards.program_call_evaluator(p, mods)
+    guards.HOOK["value"] = guards.program_call_evaluator(p, mods, want_value=True)
+    try:
+        # sites (outside the kind arms for named and container kinds) whose guard, evaluated on one representative
+        # per JSON kind for each primitive type, raises the default error exactly where the specification rejects
+        prim_sites = 0
+        named_arm_nodes = {id(n) for k in ("array", "map", "enum", "fixed", "record", "error") if R.arms.get(k) is not None for n in arm_nodes(R.arms[k])}
+        for n in walk_local(ps.node):
+            if isinstance(n, ast.Call) and isinstance(n.func, ast.Name) and rd is not None and p.resolve_func(ps.mod, n.func) is rd and id(n) not in named_arm_nodes:
                 facts = true_facts(cfg, cfg.node_of(n))
-                if f"{R.default} is not NO_DEFAULT" in facts and f"not isinstance({R.default}, {typ})" in facts:
-                    ok = True
-        ctx.check("C11.R5", f"{kind} arm checks its default is a {typ}", ok, ps.where(arm) if arm else ps.where(), f"_parse_schema {kind} arm: default check", f"a default of the wrong JSON kind for {kind} is accepted")
+                about = [ast.parse(t, mode="eval").body for t in sorted(facts) if t != f"{R.default} is not NO_DEFAULT" and R.default in names_in_text(t)]
+                if f"{R.default} is not NO_DEFAULT" not in facts or not about:
+                    continue
+                good = True
+                for kind in spec.PRIMITIVES if hasattr(spec, "PRIMITIVES") else ("null", "boolean", "int", "long", "float", "double", "bytes", "string"):
+                    want = spec.DEFAULT_KINDS[kind]
+                    types = tuple({"NoneType": type(None), "bool": bool, "int": int, "float": float, "str": str, "list": list, "dict": dict}[t] for t in want.split("|"))
+                    for name, rep in REPS:
+                        env = {R.default: rep, R.tvar: kind, R.schema: kind}
+                        vals = [guards.eval_bool(t, env) for t in about]
+                        if any(v is None for v in vals) or all(vals) != (not isinstance(rep, types)):
+                            good = False
+                if good:
+                    prim_sites += 1
+        ctx.check("C11.R5", "the table is applied in the union arm and the reference arm with the name table, and in the primitive arms", len(with_table) >= 2 and prim_sites >= 2, ps.where(), f"_parse_schema: {len(with_table)} uses of the default table with the name table, {prim_sites} primitive arms whose default check follows the table", "an arm that can receive a default does not check it, or checks a union / reference without the name table")
+        for kind, typ in (("array", list), ("map", dict), ("enum", str), ("fixed", str), ("record", dict)):
+            arm = R.arms.get(kind)
+            ok = False
+            undecided = None
+            for n in arm_nodes(arm) if arm is not None else []:
+                if isinstance(n, ast.Call) and isinstance(n.func, ast.Name) and rd is not None and p.resolve_func(ps.mod, n.func) is rd:
+                    facts = true_facts(cfg, cfg.node_of(n))
+                    if f"{R.default} is not NO_DEFAULT" not in facts:
+                        continue
+                    # the facts about the default, evaluated on one representative per JSON kind: the error must be
+                    # raised exactly for the representatives that are not of the kind's JSON type
+                    about = [ast.parse(t, mode="eval").body for t in sorted(facts) if t != f"{R.default} is not NO_DEFAULT" and R.default in names_in_text(t)]
+                    if not about:
+                        continue
+                    verdicts = {}
+                    for name, rep in REPS:
+                        env = {R.default: rep, R.tvar: kind}
+                        vals = [guards.eval_bool(t, env) for t in about]
+                        verdicts[name] = None if any(v is None for v in vals) else all(vals)
+                    if None in verdicts.values():
+                        undecided = verdicts
+                        continue
+                    if all(verdicts[name] == (not isinstance(rep, typ)) for name, rep in REPS):
+                        ok = True
+            if not ok and undecided is not None:
+                ctx.unrecognised("C11.R5", f"{kind} arm checks its default is a {typ.__name__}", ps.where(arm), f"guard of the default error not evaluable: {undecided}")
+            else:
+                ctx.check("C11.R5", f"{kind} arm checks its default is a {typ.__name__}", ok, ps.where(arm) if arm else ps.where(), f"_parse_schema {kind} arm: default check", f"a default of the wrong JSON kind for {kind} is accepted")
+    finally:
+        guards.HOOK["call"] = guards.HOOK["value"] = None
     if rd is None:
         ctx.unrecognised("C11.R5", "default error helper", ps.where(), "_raise_default_value_error not found")
     else:
@@ -320,7 +377,7 @@ def default_table(dm):
             atoms = {t: isinstance(rep, (int, float)) for t in coerced}
             r = guards.run_chain(dm.node.body, env, atoms)
             if r[0] == "return":
-                v = guards.eval_bool(r[1], env, atoms) if r[1] is not None else False
+                v = guards.eval_bool(r[1], guards.LAST.get("ret_env", env), atoms) if r[1] is not None else False
                 out[kind][name] = v
             else:
                 out[kind][name] = None
